@@ -52,7 +52,14 @@ func main() {
 	from := flag.Int("from", 0, "child mode: first input index")
 	to := flag.Int("to", -1, "child mode: one past the last input index (-1 = all)")
 	res := flag.String("res", "", "child mode: results file (appended)")
+	conc := flag.String("conc", "", "concurrent child mode: format (wkt|json|wkb|twkb|mixed)")
+	concDocs := flag.Int("concdocs", concDocsQuick, "concurrent child mode: documents per goroutine")
+	concSample := flag.Bool("concsample", false, "concurrent child mode: only write a sample of the batch")
 	a := lib.ParseArgs()
+	if *conc != "" {
+		runConc(*conc, a.Seed, *concDocs, *res, *concSample)
+		return
+	}
 	if *childIn != "" {
 		runChild(*childIn, *from, *to, *res)
 		return
@@ -228,6 +235,8 @@ func runParent(a lib.Args) {
 			break
 		}
 	}
+	// ---- the concurrent phase: one sacrificial child per format, many goroutines each
+	concLines, concStats := runConcPhase(self, a)
 	// assemble the case file
 	w, doneOut := a.Output()
 	defer doneOut()
@@ -244,6 +253,11 @@ func runParent(a lib.Args) {
 		n++
 	}
 	rf.Close()
+	for _, l := range concLines {
+		w.WriteString(l)
+		w.WriteByte('\n')
+	}
+	dist["concurrent_phase"] = concStats
 	dist["inputs_total"] = len(ins)
 	dist["inputs_run"] = n
 	dist["child_deaths"] = deaths
@@ -298,4 +312,58 @@ func countLines(path string) int {
 		}
 	}
 	return n
+}
+
+// runConcPhase runs the concurrent children and returns their case lines (class "concurrent").
+func runConcPhase(self string, a lib.Args) ([]string, map[string]interface{}) {
+	docs := concDocsQuick
+	if a.Tier == "thorough" {
+		docs *= 8
+	}
+	stats := map[string]interface{}{"goroutines": concGoroutines, "docs_per_goroutine": docs}
+	var lines []string
+	for i, f := range concFormats {
+		res := a.Out + ".conc"
+		os.Remove(res)
+		run := func(extra ...string) (int, string) {
+			args := append([]string{"-conc", f, "-seed", strconv.FormatUint(a.Seed, 10), "-concdocs", strconv.Itoa(docs), "-res", res}, extra...)
+			cmd := exec.Command(self, args...)
+			cmd.Env = append(os.Environ(), "GOMEMLIMIT="+childMemLimit, "GOTRACEBACK=single")
+			var stderr bytes.Buffer
+			cmd.Stderr = &tailWriter{buf: &stderr, max: 1 << 16}
+			err := cmd.Run()
+			if err == nil {
+				return 0, ""
+			}
+			rc := 1
+			if ee, ok := err.(*exec.ExitError); ok {
+				rc = ee.ExitCode()
+			}
+			return rc, deathReason(stderr.String())
+		}
+		rc, reason := run()
+		o := obs{nv: 'o', v: '-', valid: '-'}
+		sample := ""
+		if rc != 0 {
+			o.nv = 'd'
+			o.msg = fmt.Sprintf("%s [concurrent: %d goroutines x %d documents of format %s, seed %d; the batch is regenerated from the seed, its first documents are the input field]", reason, concGoroutines, docs, f, a.Seed)
+		} else if b, err := os.ReadFile(res); err == nil {
+			fs := strings.SplitN(strings.TrimSpace(string(b)), "\t", 2)
+			if len(fs) > 0 && fs[0] != "panics=0" {
+				o.nv = 'p'
+				o.msg = "concurrent: " + strings.TrimSpace(string(b))
+			}
+		}
+		if o.nv != 'o' {
+			os.Remove(res)
+			run("-concsample")
+			if b, err := os.ReadFile(res); err == nil {
+				sample = string(b)
+			}
+		}
+		stats[f] = string(o.nv)
+		lines = append(lines, fmt.Sprintf("conc%d\tconcurrent\t%s\t%s\t%s", i, f, lib.Hex([]byte(sample)), o.fields()))
+		os.Remove(res)
+	}
+	return lines, stats
 }
